@@ -60,17 +60,24 @@ pub fn run_history(hist: &Value, out: &mut dyn Write) {
         let w = op["w"].as_u64().unwrap_or(0);
         let tr = op["tr"].as_bool().unwrap_or(false);
         let tw = op["tw"].as_u64().unwrap_or(65535) as u16;
-        let template = if kind == "wide" {
+        let pm = tok::cells_to_string(op.get("pm").unwrap_or(&Value::Null));
+        let template = if kind == "bar" {
+            format!("{}{{bar:{}{}}}{}", lit(&pre), al, w, lit(&suf))
+        } else if kind == "wide2" {
+            // the text in front of the wide element comes from another field ({prefix:P}); `pre` is its expected rendering and is not part of the template
+            format!("{{prefix:{}}} {{wide_msg:{}}}{}", op["pw"].as_u64().unwrap_or(0), al, lit(&suf))
+        } else if kind == "wide" {
             if al.is_empty() { format!("{}{{wide_msg}}{}", lit(&pre), lit(&suf)) } else { format!("{}{{wide_msg:{}}}{}", lit(&pre), al, lit(&suf)) }
         } else {
             format!("{}{{{}:{}{}{}}}{}", lit(&pre), if kind == "prefix" { "prefix" } else { "msg" }, al, w, if tr { "!" } else { "" }, lit(&suf))
         };
         let r = catch_unwind(AssertUnwindSafe(|| {
             let style = match ProgressStyle::with_template(&template) { Ok(s) => s, Err(e) => return (vec![], format!("{e}")) };
+            let style = if kind == "bar" { style.progress_chars(&tok::cells_to_string(&op["chars"])) } else { style };
             let spy = Spy::new(tw, 100);
             let pb = ProgressBar::with_draw_target(Some(10), ProgressDrawTarget::term_like(Box::new(spy.clone())))
                 .with_finish(ProgressFinish::Abandon).with_style(style);
-            let pb = if kind == "prefix" { pb.with_prefix(m.clone()).with_message("zzzzzzzzzzzz") } else { pb.with_message(m.clone()).with_prefix("zzzzzzzzzzzz") };
+            let pb = if kind == "wide2" { pb.with_message(m.clone()).with_prefix(pm.clone()) } else if kind == "bar" { pb.with_position(5) } else if kind == "prefix" { pb.with_prefix(m.clone()).with_message("zzzzzzzzzzzz") } else { pb.with_message(m.clone()).with_prefix("zzzzzzzzzzzz") };
             pb.tick();
             let strs = painted_strs(&spy, 1);
             spy.set_size(80, 100);     // the implicit final draw on drop is not part of the observation; keep it cheap
